@@ -290,7 +290,10 @@ static pid_t process_fork(const int *except, size_t num_except)
 
 finish:
   if (r < 0) {
-    (void) !write(pipe.write, &errno, sizeof(errno));
+    // Report the error we ran into, not whatever `errno` happens to contain:
+    // not every failure above comes from a function that sets `errno`.
+    int error = -r;
+    (void) !write(pipe.write, &error, sizeof(error));
     _exit(EXIT_FAILURE);
   }
 
@@ -441,7 +444,8 @@ int process_start(pid_t *process,
 
   child:
     if (r < 0) {
-      (void) !write(pipe.write, &errno, sizeof(errno));
+      int error = -r;
+      (void) !write(pipe.write, &error, sizeof(error));
       _exit(EXIT_FAILURE);
     }
 
